@@ -38,7 +38,7 @@ var c14EntryNames = []string{"ToObject", "Decoder.Decode", "Decoder.ReadFrom(dir
 	"Decoder.ReadObject xK (direct reader)", "Serializer.ToObject", "Serializer.ReadFrom+Read xK"}
 
 func c14Domain() Domain {
-	return Domain{EmptyStringElems: true, NilPtrElems: true, ZeroTimeElems: true, BigStrings: true, BigBinaries: true,
+	return Domain{Untyped: true, EmptyStringElems: true, NilPtrElems: true, ZeroTimeElems: true, BigStrings: true, BigBinaries: true,
 		FarDates: true, AllDoubles: true, OddMaps: true, MaxListLen: 10, MaxMapLen: 4}
 }
 
